@@ -198,22 +198,115 @@ fn run_case(seed: u64, idx: u64) -> CaseOut {
     co
 }
 
+/// State sweep: one style holding every documented key (with and without field widths) is drawn for bar
+/// states reached through extreme histories on a virtual clock: lengths 0 / 1 / 2^63 / u64::MAX / none,
+/// positions below, at and beyond the length, steps that are hours or nanoseconds apart (rates from
+/// ~1e-13 to 1e18 per second, ETAs that saturate), elapsed times from nothing to decades, in progress /
+/// finished / abandoned / reset. Every update, draw and time-related getter runs under catch_unwind.
+fn state_sweep_case(seed: u64, idx: u64) -> CaseOut {
+    use std::sync::atomic::{AtomicU64, Ordering};
+    let mut rng = Rng::derive(seed, 1414, idx);
+    let replay = format!("s{seed}:{idx}");
+    const KEYS: [&str; 28] = [
+        "spinner", "prefix", "msg", "wide_msg", "pos", "human_pos", "len", "human_len", "percent", "percent_precise", "bytes", "total_bytes",
+        "decimal_bytes", "decimal_total_bytes", "binary_bytes", "binary_total_bytes", "elapsed_precise", "elapsed", "per_sec", "bytes_per_sec",
+        "decimal_bytes_per_sec", "binary_bytes_per_sec", "eta_precise", "eta", "duration_precise", "duration", "bar", "wide_bar",
+    ];
+    let tmpl: String = KEYS
+        .iter()
+        .map(|k| if *k == "wide_bar" || *k == "wide_msg" { format!("{{{k}}}") } else if rng.chance(1, 3) { format!("{{{k}:>{}}}", rng.range(0, 30)) } else { format!("{{{k}}}") })
+        .collect::<Vec<_>>()
+        .join("\n");
+    let clock = std::sync::Arc::new(AtomicU64::new(14_000_000_000));
+    crate::world::install_session(&clock);
+    let len0 = *rng.pick(&[None, Some(0u64), Some(1), Some(10), Some(1 << 63), Some(u64::MAX - 1), Some(u64::MAX)]);
+    let width = *rng.pick(&[1u16, 7, 80, 300]);
+    let (pb, _spy) = new_bar(width, 60000, len0);
+    let mut history: Vec<String> = Vec::new();
+    let mut co = CaseOut::held(0, true);
+    let res = catch_unwind(AssertUnwindSafe(|| {
+        pb.set_style(ProgressStyle::with_template(&tmpl).unwrap());
+        let n = rng.range(1, 12);
+        for _ in 0..n {
+            let adv: u64 = match rng.below(6) {
+                0 => 1,
+                1 => rng.range(1, 1_000_000),
+                2 => rng.range(1, 5_000) * 1_000_000,
+                3 => rng.range(1, 100) * 3_600_000_000_000,
+                4 => rng.range(1, 40) * 365 * 86_400_000_000_000,
+                _ => 1_100_000_000,
+            };
+            clock.fetch_add(adv, Ordering::SeqCst);
+            let big = *rng.pick(&[1u64, 2, 1000, 1 << 32, 1 << 62, u64::MAX / 2, u64::MAX - 1, u64::MAX]);
+            let op = rng.below(14);
+            history.push(format!("+{adv}ns op{op}({big})"));
+            match op {
+                0 | 1 => pb.inc(1),
+                2 => pb.inc(big),
+                3 => pb.set_position(big),
+                4 => pb.set_length(big),
+                5 => pb.unset_length(),
+                6 => pb.inc_length(big),
+                7 => pb.dec_length(big),
+                8 => pb.tick(),
+                9 => pb.reset_eta(),
+                10 => pb.reset_elapsed(),
+                11 => pb.reset(),
+                12 => pb.set_position(rng.range(0, 20)),
+                _ => pb.dec(1),
+            }
+            pb.force_draw();
+            let _ = (pb.eta(), pb.duration(), pb.per_sec(), pb.elapsed(), pb.position(), pb.length());
+        }
+        match rng.below(4) {
+            0 => pb.finish(),
+            1 => pb.abandon(),
+            _ => {}
+        }
+        clock.fetch_add(rng.range(1, 10) * 1_000_000_000, Ordering::SeqCst);
+        pb.force_draw();
+        let _ = (pb.eta(), pb.duration(), pb.per_sec(), pb.elapsed());
+        pb.abandon();
+    }));
+    co.hash = fnv1a(format!("{tmpl}{len0:?}{history:?}").as_bytes());
+    if let Err(p) = res {
+        std::mem::forget(pb);
+        co.verdict = Verdict::Violated(Box::new(Violation {
+            rule: "render-panic".into(),
+            features: vec!["state-sweep".into()],
+            detail: format!(
+                "a style with every documented key panicked for a reachable bar state (initial length {len0:?}, terminal width {width}, history {history:?}): {}",
+                crate::world::panic_message(&p)
+            ),
+            witness: J::obj().with("template", tmpl).with("initial_length", format!("{len0:?}")).with("history", J::Arr(history.iter().map(|h| J::from(h.clone())).collect())),
+            replay,
+        }));
+    }
+    indicatif::verif_hooks::install(None);
+    co.count("state_sweep_draws", history.len() as u64 + 1);
+    co
+}
+
 pub fn run(cfg: &RunCfg) -> PropResult {
     console::set_colors_enabled(false);
     let report = if let Some(case) = &cfg.case {
-        let mut it = case.split(':');
+        let sweep = case.starts_with('s');
+        let mut it = case.trim_start_matches('s').split(':');
         let seed: u64 = it.next().and_then(|s| s.parse().ok()).unwrap_or(cfg.seed);
         let idx: u64 = it.next().and_then(|s| s.parse().ok()).unwrap_or(0);
         let mut r = crate::report::Report::default();
-        r.add(idx, run_case(seed, idx));
+        r.add(idx, if sweep { state_sweep_case(seed, idx) } else { run_case(seed, idx) });
         r
     } else {
         let n = if cfg.thorough { 1_000_000 } else { 20_000 };
-        run_parallel(n, workers(), |i| run_case(cfg.seed, i))
+        let mut r = run_parallel(n, workers(), |i| run_case(cfg.seed, i));
+        let ns = if cfg.thorough { 1_500_000 } else { 30_000 };
+        r.merge(crate::report::run_parallel_tagged('s', ns, workers(), |i| state_sweep_case(cfg.seed, i)));
+        r
     };
     PropResult {
         report,
-        rule: "each evaluation: 1-3 builder calls (tick_chars with 0/1/2/3/5/30 characters, tick_strings with 0/1/2/3/8 strings incl. empty and multi-column ones, progress_chars with 0..10 clusters of equal / mixed / zero width, with_key, template) on a base style; a build-time panic is an accepted rejection; an accepted style is then asked for its tick strings at 12 tick values up to u64::MAX and drawn for 6 states x 4 terminal widths with 3 ticks each, every step under catch_unwind; distinct = hash of (base template, builder calls)".into(),
+        rule: "each evaluation: 1-3 builder calls (tick_chars with 0/1/2/3/5/30 characters, tick_strings with 0/1/2/3/8 strings incl. empty and multi-column ones, progress_chars with 0..10 clusters of equal / mixed / zero width, with_key, template) on a base style; a build-time panic is an accepted rejection; an accepted style is then asked for its tick strings at 12 tick values up to u64::MAX and drawn for 6 states x 4 terminal widths with 3 ticks each, every step under catch_unwind; distinct = hash of (base template, builder calls); state sweep: a style with all 28 documented keys drawn after each of 1-12 operations of an extreme history on a virtual clock (lengths 0/1/2^63/u64::MAX/none, u64-extreme positions, steps nanoseconds to decades apart, resets, finish/abandon), time getters included".into(),
         exhaustive: false,
     }
 }
